@@ -32,7 +32,7 @@ import gen_lean as G   # noqa: E402
 import rs2lean as X    # noqa: E402
 
 AGREE = ["KiraModel.Proofs.GenAgree", "KiraModel.Proofs.GenAgreeMod", "KiraModel.Proofs.GenAgreeFx",
-         "KiraModel.Proofs.GenAgreeSound", "KiraModel.Proofs.GenAgreeSpatial"]
+         "KiraModel.Proofs.GenAgreeSound", "KiraModel.Proofs.GenAgreeSpatial", "KiraModel.Proofs.GenAgreeTransport"]
 FLOAT_LIT = re.compile(r"(?<![A-Za-z0-9_.])(\d[\d_]*)\.(\d+)(?![A-Za-z0-9_]*\()")
 INT_LIT = re.compile(r"(?<![A-Za-z0-9_.])(\d[\d_]*)(?![A-Za-z0-9_.])")
 
